@@ -243,6 +243,11 @@ def c12(ctx, api):
     if st['errors'] or st['rc'] != 0:
         raise api['Broken']('slice lemmas failed on the model: %s' % st['errors'][:3])
     acc.add('SliceLemmas: clamp-and-walk = set definition; huge magnitudes behave as length+1', st, None)
+    st = api['run_tlapm'](ctx, 'slice-proofs', 'SliceProofs')
+    acc.add('SliceProofs (TLAPS, %d obligations): for EVERY length and EVERY integer start / stop / step the clamp lies in -1..len, a bound beyond '
+            '+-(len+1) clamps like +-(len+1), a step beyond +-(len+1) ends the walk after its first index, every visited index is an index of the '
+            'array, and the walk visits at most len indices -- the unbounded counterpart of HugeLemma, about the same Cap / Visits operators '
+            '(SliceCap.tla) that Slice.tla evaluates' % st['obligations'], st, None)
     maxn = 6 if thorough else 4
     st, summ = api['run_tlc_to_harness'](ctx, 'slices', 'GenSlice',
                                          cfg(constants={'Emit': 'TRUE', 'Prop': '"C12"', 'MaxN': maxn}), timeout=3000)
@@ -722,7 +727,10 @@ def c09(ctx, api):
                                              harness_args=['-timeout', '60s' if thorough else '20s', '-workers', '8'])
     finally:
         ctx['harness_env'] = {}
-    acc.add('GenCost: 56 parameter positions x 5 magnitudes against the twin magnitude 1000; 8 nesting families scaled 64..8192 and one instance at depth %s'
+    stp = api['run_tlapm'](ctx, 'slice-proofs', 'SliceProofs')
+    acc.add('SliceProofs (TLAPS, %d obligations): the clamp of a slice bound and the length of the walk are independent of the magnitude of start / stop / step '
+            'for every length and all integers (the reason behind MagnitudeIndependent, which TLC checks on the listed magnitudes)' % stp['obligations'], stp, None)
+    acc.add('GenCost: 142 parameter positions (short subjects, and subjects of 40 mixed-width code points / 70 letters / 70 elements) x 16 magnitudes against the twin magnitude 1000; 8 nesting families scaled 64..8192 and one instance at depth %s'
             % ('5,000,000' if thorough else '100,000'), st, summ)
     # every generated case of the other machines also runs under the per-case time budget (hang detection)
     st, summ = api['run_tlc_to_harness'](ctx, 'slices', 'GenSlice', cfg(constants={'Emit': 'TRUE', 'Prop': '"C09"', 'MaxN': 3}), timeout=3000)
